@@ -485,6 +485,40 @@ namespace
                         std::reverse(back.begin(), back.end());
                         if (back != m[l]) violate("C01/cxx-dlist-backward", "%s: operator-- from end() of list %d gives %s, reference %s", when, l, seq(back).c_str(), seq(m[l]).c_str());
                     }
+                    {
+                        // the remaining iterator operators: post-decrement, ==, ->, and the reverse iterator's ++(int), --, --(int), ==, ->
+                        std::vector<int> a, b, c;
+                        auto e = L.end();
+                        int g3 = 0;
+                        while (!(e == L.begin()))
+                        {
+                            if (++g3 > ni + 2) violate("C01/cxx-dlist-cycle", "%s: post-decrementing from end() of list %d does not reach begin()", when, l);
+                            e--;
+                            a.push_back(e->id);
+                        }
+                        std::reverse(a.begin(), a.end());
+                        if (a != m[l]) violate("C01/cxx-dlist-backward", "%s: operator--(int) / operator-> walk of list %d gives %s, reference %s", when, l, seq(a).c_str(), seq(m[l]).c_str());
+                        if ((L.begin() == L.end()) != m[l].empty()) violate("C01/cxx-dlist-empty", "%s: begin() == end() is %d for a list of %zu", when, (int)(L.begin() == L.end()), m[l].size());
+                        g3 = 0;
+                        auto r = L.rbegin();
+                        for (; !(r == L.rend()); r++)
+                        {
+                            if (++g3 > ni + 2) violate("C01/cxx-dlist-cycle", "%s: reverse post-increment iteration of list %d does not end", when, l);
+                            b.push_back(r->id);
+                        }
+                        std::reverse(b.begin(), b.end());
+                        if (b != m[l]) violate("C01/cxx-dlist-backward", "%s: reverse_iterator++(int) walk of list %d (reversed) gives %s, reference %s", when, l, seq(b).c_str(), seq(m[l]).c_str());
+                        // and back again: decrementing a reverse iterator from rend() walks forward
+                        g3 = 0;
+                        while (r != L.rbegin())
+                        {
+                            if (++g3 > ni + 2) violate("C01/cxx-dlist-cycle", "%s: decrementing a reverse iterator of list %d does not reach rbegin()", when, l);
+                            if (g3 & 1) --r;
+                            else r--;
+                            c.push_back((*r).id);
+                        }
+                        if (c != m[l]) violate("C01/cxx-dlist-forward", "%s: reverse_iterator-- walk of list %d gives %s, reference %s", when, l, seq(c).c_str(), seq(m[l]).c_str());
+                    }
                     std::reverse(bwd.begin(), bwd.end());
                     if (bwd != m[l]) violate("C01/cxx-dlist-backward", "%s: list %d backward (reversed) %s, reference %s", when, l, seq(bwd).c_str(), seq(m[l]).c_str());
                     if (L.size() != m[l].size()) violate("C01/cxx-dlist-size", "%s: list %d size()=%zu reference %zu", when, l, L.size(), m[l].size());
@@ -517,6 +551,7 @@ namespace
                     if (n->is_linked() != linked || n->is_unlinked() == linked)
                         violate("C01/cxx-dlist-is_linked", "%s: item %d is_linked()=%d, reference says %s", when, i, (int)n->is_linked(), linked ? "linked" : "unlinked");
                     if (!linked && (n->next != n || n->prev != n)) violate("C01/cxx-dlist-selflink", "%s: unlinked item %d is not self-linked", when, i);
+                    if (n->empty() == linked) violate("C01/cxx-dlist-is_linked", "%s: item %d node.empty()=%d, reference says %s", when, i, (int)n->empty(), linked ? "linked" : "unlinked");
                 }
             };
             auto ins_rel = [&](int x, int tgt, bool after) {
@@ -540,7 +575,14 @@ namespace
                 case X_BACK:
                     if (st[i] == LINKED && m[where[i]].size() == 1) probe("single_element_move");
                     if (st[i] != UNLINKED) probe("reinsert_linked_node");
-                    if (k == X_FRONT) L.move_front(obj);
+                    if ((i + l) & 1)
+                    {
+                        // the untyped interface of the base class takes the node itself
+                        igris::dlist_base &base = L;
+                        if (k == X_FRONT) base.move_front(obj.lnk);
+                        else base.move_back(obj.lnk);
+                    }
+                    else if (k == X_FRONT) L.move_front(obj);
                     else L.move_back(obj);
                     unlink_model(i);
                     if (k == X_FRONT) m[l].insert(m[l].begin(), i);
@@ -768,6 +810,20 @@ namespace
                         x.push_back((*i).id);
                     }
                     if (x != ms[nl + l]) violate("C01/cxx-slist-forward", "%s: igris::slist %d yields %s, reference %s", when, l, seq(x).c_str(), seq(ms[nl + l]).c_str());
+                    {
+                        // post-increment, == and -> walk the same sequence (the const_iterator half of the class does not compile when
+                        // instantiated: const begin()/end(), const_iterator::operator++(int); neither do dlist_node::cast_out and
+                        // dlist_base::first_entry/last_entry, nor dlist<>::round_left - nobody can call them)
+                        std::vector<int> y;
+                        guard = 0;
+                        for (auto i = xs[l]->begin(); !(i == xs[l]->end()); i++)
+                        {
+                            if (++guard > ni + 2) violate("C01/slist-cycle", "%s: igris::slist %d post-increment iteration does not end", when, l);
+                            y.push_back(i->id);
+                        }
+                        if (y != ms[nl + l])
+                            violate("C01/cxx-slist-forward", "%s: igris::slist %d post-increment iteration yields %s, reference %s", when, l, seq(y).c_str(), seq(ms[nl + l]).c_str());
+                    }
                     if (xs[l]->empty() != ms[nl + l].empty()) violate("C01/cxx-slist-empty", "%s: igris::slist::empty differs", when);
                     // hlist
                     std::vector<int> h;
